@@ -360,8 +360,16 @@ func (c *Ctx) checkBinaryCall(name string, apply *ssa.Function, call *ssa.Call) 
 	}
 	if want, isArith := binaryKernels[name]; isArith {
 		got := c.kernelTerm(kernel)
-		if got != want {
+		if got != want && !(name == "Div" && c.hasFloatQuotient(kernel) && strings.Contains(got, "P0") && strings.Contains(got, "P1")) {
 			bad = fmt.Sprintf("kernel %s computes %s, expected gorgonia %s", fname(kernel), got, want)
+		}
+		if name == "Div" && bad == "" {
+			// gorgonia's float division (vecf32/vecf64 Div, go.go l.36) answers EVERY division by zero with +Inf:
+			// -1/0, 0/0 and 1/-0 all give +Inf. The kernel has to contain Go's own IEEE division for those
+			// elements (a correction pass or its own element loop).
+			c.decide(c.hasFloatQuotient(kernel), "R7", "R7:binary:Div:zero-divisor", c.pos(kernel.Pos()),
+				"the Div kernel divides floating point elements with Go's IEEE division",
+				"Div hands floating point division to gorgonia's tensor.Div only: its vector kernels (gorgonia.org/vecf32, vecf64 Div) set the quotient to +Inf whenever the divisor is zero, whatever the numerator - Div(-1, 0) = +Inf (IEEE -Inf), Div(0, 0) = +Inf (IEEE NaN)")
 		}
 	} else {
 		// boolean: kernel calls the coordinate iterator helper with a closure; check the truth table
@@ -386,6 +394,48 @@ func (c *Ctx) checkBinaryCall(name string, apply *ssa.Function, call *ssa.Call) 
 		}
 	}
 	return bad, kernel
+}
+
+// hasFloatQuotient: the function (or a library function it calls, two levels) divides float values with Go's `/`.
+func (c *Ctx) hasFloatQuotient(f *ssa.Function) bool {
+	seen := map[*ssa.Function]bool{}
+	var walk func(g *ssa.Function, depth int) bool
+	walk = func(g *ssa.Function, depth int) bool {
+		if g == nil || seen[g] || depth > 2 || !isLibFn(g) {
+			return false
+		}
+		seen[g] = true
+		for _, b := range g.Blocks {
+			for _, in := range b.Instrs {
+				switch x := in.(type) {
+				case *ssa.BinOp:
+					if bt, ok := x.X.Type().Underlying().(*types.Basic); ok && x.Op == token.QUO && bt.Info()&types.IsFloat != 0 {
+						return true
+					}
+				case *ssa.Call:
+					if walk(x.Common().StaticCallee(), depth+1) {
+						return true
+					}
+					for _, a := range x.Common().Args {
+						if fn := funcValueOf(a); fn != nil && walk(fn, depth+1) {
+							return true
+						}
+					}
+				case *ssa.MakeClosure:
+					if fn, ok := x.Fn.(*ssa.Function); ok && walk(fn, depth+1) {
+						return true
+					}
+				}
+			}
+		}
+		for _, an := range g.AnonFuncs {
+			if walk(an, depth+1) {
+				return true
+			}
+		}
+		return false
+	}
+	return walk(f, 0)
 }
 
 func (c *Ctx) constValue(pkg, name string) int64 {
@@ -414,10 +464,17 @@ func (c *Ctx) kernelTerm(k *ssa.Function) string {
 			succ = append(succ, r)
 		}
 	}
-	if len(succ) != 1 {
-		return "<multiple returns>"
+	if len(succ) == 0 {
+		return "<no success return>"
 	}
-	return c.term(succ[0].Results[0], 0)
+	// several success returns are fine when they hand out the same value
+	t0 := c.term(succ[0].Results[0], 0)
+	for _, r := range succ[1:] {
+		if c.term(r.Results[0], 0) != t0 {
+			return "<multiple returns>"
+		}
+	}
+	return t0
 }
 
 // checkBinaryDriver: broadcast(A,B) in order on the selected mode, then op(A', B') in order.
